@@ -286,6 +286,9 @@ var extPool = []string{"yaml", "yml", "json", "YAML", "Yml", "JSON"}
 
 func genForest(r *Rng, o ForestOpts) *Forest {
 	n := r.Range(1, o.MaxEnts)
+	if o.MaxEnts > 8 {
+		n = r.Range(o.MaxEnts/2, o.MaxEnts)
+	}
 	f := &Forest{}
 	depth := map[string]int{}
 	for i := 0; i < n; i++ {
